@@ -881,6 +881,24 @@ def part_e(ctx, info):
         if got != want:
             viol(ctx, "nested:%r" % s, "nested_expr on %r gives %r, the bracket reading gives %r" % (s, got, want), {"kind": "nested", "s": s})
         impl.append(got)
+    # quote characters are ordinary content when no ignore expression is asked for, under both spellings of the keyword
+    # (the default ignore expression, quoted_string, would pair them up and hide brackets)
+    nq = 0
+    qstrs = [x for x in all_strings("()a'\" ", 5 if not ctx.thorough else 6) if "'" in x or '"' in x]
+    qstrs += ["(don't (you can't))", '(x "(" y)', "(a 'b) c')", "('(')", '("")', "(a\"b)"]
+    for kw in ("ignore_expr", "ignoreExpr"):
+        neq = pp.nested_expr("(", ")", **{kw: None})
+        for s_ in qstrs:
+            got = run_at0(neq, s_)
+            if got not in (None, "rec"):
+                got = (got[0][0], got[1])
+            want = ref_nested(s_)
+            nq += 1
+            ctx.case(("nested-quotes", kw, s_), nontrivial=want is not None, agreed=True)
+            if got != want and got != "rec":
+                viol(ctx, "nested-quotes:%s:%r" % (kw, s_), "nested_expr('(', ')', %s=None) on %r gives %r, the bracket reading gives %r" % (kw, s_, got, want),
+                     {"kind": "nested-quotes", "kw": kw, "s": s_})
+    ctx.stat("nested_quote_cases", nq)
     # delimiters of mixed and equal lengths (implementation vs the reading only; the Coq model has single characters)
     nm = 0
     for o_, c_ in (("${", "}"), ("<", "/>"), ("{", "%}"), ("<<", ">>"), ("[", "]")):
@@ -1072,6 +1090,12 @@ def replay(ctx, obj):
             got = (got[0][0], got[1])
         want = ref_nested_multi(r["s"], r["o"], r["c"])
         bad = None if got == want else ("", "nested_expr(%r, %r) on %r gives %r, the bracket reading gives %r" % (r["o"], r["c"], r["s"], got, want))
+    elif k == "nested-quotes":
+        got = run_at0(pp.nested_expr("(", ")", **{r["kw"]: None}), r["s"])
+        if got not in (None, "rec"):
+            got = (got[0][0], got[1])
+        want = ref_nested(r["s"])
+        bad = None if got == want else ("", "nested_expr on %r gives %r, the bracket reading gives %r" % (r["s"], got, want))
     elif k == "nested":
         got = run_at0(pp.nested_expr("(", ")", ignore_expr=None), r["s"])
         if got not in (None, "rec"):
